@@ -40,6 +40,18 @@ WKT_LEAF_JSON = {"google.protobuf.Timestamp", "google.protobuf.Duration", "googl
                  "google.protobuf.Int64Value", "google.protobuf.UInt64Value", "google.protobuf.BoolValue",
                  "google.protobuf.FloatValue", "google.protobuf.DoubleValue", "google.protobuf.BytesValue"}
 
+# message types never filled by the random valuation generator (their JSON form needs a type registry)
+UNGENERATED = {"google.protobuf.Any", "google.protobuf.Struct", "google.protobuf.Value", "google.protobuf.ListValue"}
+
+
+def _leaf_type(fd):
+    mt = fd.message_type
+    if mt.GetOptions().map_entry:
+        v = mt.fields_by_name["value"]
+        return v.message_type if v.type == FD.TYPE_MESSAGE else mt
+    return mt
+
+
 _WORDS = ["a", "b7", "x-y", "wid get", "é", "q&a=1", "50%", "p/q", "Zed", "long" * 5, "~t.", "k+v"]
 
 
@@ -112,6 +124,8 @@ def rand_valuation(rng, desc, depth=0, max_depth=3, p_field=0.6, skip=()):
             if chosen_oneof.get(oo.name) != fd.name:
                 continue
         elif rng.random() > p_field:
+            continue
+        if fd.type == FD.TYPE_MESSAGE and _leaf_type(fd).full_name in UNGENERATED:
             continue
         if _is_map(fd):
             kf = fd.message_type.fields_by_name["key"]
